@@ -150,8 +150,8 @@ fn main() {
     // ---- ServiceInfo and friends
     let strs = ["", "v", "ä\"\\\n"];
     for v in strs {
-        for ifs in subsets(&["org.varlink.service", "a.b", ""]) {
-            let si = ServiceInfo { vendor: v.into(), product: "p".into(), version: v.into(), url: "u".into(), interfaces: ifs.iter().map(|s| Cow::Borrowed(*s)).collect() };
+        for (ifs, (p2, u2)) in subsets(&["org.varlink.service", "a.b", ""]).into_iter().flat_map(|i| strs.iter().flat_map(|p| strs.iter().map(move |u| (*p, *u))).map(move |pu| (i.clone(), pu))) {
+            let si = ServiceInfo { vendor: v.into(), product: p2.into(), version: if u2.is_empty() { "1".into() } else { v.into() }, url: u2.into(), interfaces: ifs.iter().map(|s| Cow::Borrowed(*s)).collect() };
             let case = json!({"type": "ServiceInfo", "value": format!("{:?}", si)});
             if !want(&case) {
                 continue;
